@@ -60,6 +60,8 @@ type Cfg struct {
 	Partitions bool `json:"partitions"`
 	FS         bool `json:"fs"`
 	NoAbort    bool `json:"no_abort"`
+	// Comp: row data compression ("" = none, "snappy", "zstd"): the limits count the rows' own bytes whatever is written
+	Comp string `json:"comp,omitempty"`
 }
 
 type Program struct {
@@ -810,6 +812,12 @@ func Run(p *Program, tr *h.Tracer, traceID int64, scratch string) Result {
 	}
 	cfg.MaxQueryConcurrency = 4
 	cfg.RowDataCompression = bs.CompressionNone
+	switch c.Comp {
+	case "snappy":
+		cfg.RowDataCompression = bs.CompressionSnappy
+	case "zstd":
+		cfg.RowDataCompression = bs.CompressionZstd
+	}
 
 	if c.FS {
 		r.dir = fmt.Sprintf("%s/fs-%d", scratch, traceID)
